@@ -47,6 +47,9 @@ fn run_round(actors: &[Actor], rep: &mut Report) -> Outcome {
                 let input = match a.kind {
                     "session-bash" => json!({"tool": "bash", "args": {"command": stamp_cmd(a.id, "0.08"), "cwd": "."}}).to_string(),
                     "session-timeout" => json!({"tool": "bash", "args": {"command": stamp_cmd(a.id, "0.7"), "cwd": "."}, "timeout_ms": 120}).to_string(),
+                    // the same, with a CHILD of the tool's shell doing the writing (a subshell the
+                    // shell waits for): killing the shell alone would leave it running
+                    "session-timeout-child" => json!({"tool": "bash", "args": {"command": format!("( {} ); true", stamp_cmd(a.id, "0.7")), "cwd": "."}, "timeout_ms": 120}).to_string(),
                     // a tool that prints a lot: flushing its frames takes longer than the next actor's whole run
                     "session-bash-noisy" => json!({"tool": "bash", "args": {"command": format!("echo B{0} $(date +%s%N) >> stamps.log; sleep 0.15; seq 1 50000; echo E{0} $(date +%s%N) >> stamps.log", a.id), "cwd": "."}}).to_string(),
                     "session-write" => json!({"tool": "write", "args": {"path": format!("w{}.txt", a.id), "content": "x"}}).to_string(),
@@ -114,7 +117,7 @@ fn run_round(actors: &[Actor], rep: &mut Report) -> Outcome {
                 let _ = j.await;
             }
             // a timed-out tool may still be running: give it time to write its end stamp
-            if actors.iter().any(|a| a.kind == "session-timeout") {
+            if actors.iter().any(|a| a.kind.starts_with("session-timeout")) {
                 tokio::time::sleep(std::time::Duration::from_millis(900)).await;
             }
         });
@@ -219,7 +222,7 @@ pub fn run(opts: &Opts) -> Report {
             .collect();
         // every other round contains the timed-out tool (and a stamp writer right behind it)
         if r % 2 == 0 {
-            actors[0] = Actor { id: 0, kind: "session-timeout", mutating: true };
+            actors[0] = Actor { id: 0, kind: if r % 4 == 0 { "session-timeout-child" } else { "session-timeout" }, mutating: true };
             actors[1] = Actor { id: 1, kind: "session-bash", mutating: true };
         } else {
             // a noisy tool first, quiet mutating tools queued right behind it
@@ -239,7 +242,7 @@ pub fn run(opts: &Opts) -> Report {
             for j in (i + 1)..ivs.len() {
                 let (a, b) = (ivs[i], ivs[j]);
                 if a.1 < b.2 && b.1 < a.2 {
-                    let timeout_involved = actors[a.0].kind == "session-timeout" || actors[b.0].kind == "session-timeout";
+                    let timeout_involved = actors[a.0].kind.starts_with("session-timeout") || actors[b.0].kind.starts_with("session-timeout");
                     let sig = if timeout_involved { "C11|overlap|timed-out-tool-keeps-running" } else { "C11|overlap" };
                     rep.oracle_failure(sig, &format!("mutations of actor {} ({}) and actor {} ({}) overlap in time", a.0, actors[a.0].kind, b.0, actors[b.0].kind), case.clone());
                 }
@@ -248,7 +251,7 @@ pub fn run(opts: &Opts) -> Report {
         // oracle 2: exactly one side-effects frame per mutating tool call of a linked run
         for a in &actors {
             let want = match a.kind {
-                "session-bash" | "session-bash-noisy" | "agent-bash" | "session-write" | "session-patch" | "session-timeout" => 1,
+                "session-bash" | "session-bash-noisy" | "agent-bash" | "session-write" | "session-patch" | "session-timeout" | "session-timeout-child" => 1,
                 _ => 0, // read-only tools, checkpoint envelopes and tasks log no tool side effects on the thread
             };
             let got = out.frames_per_actor.get(&a.id).copied().unwrap_or(0);
